@@ -121,7 +121,11 @@ func workerConf(p Ports, dir, cert, key string, kind workerKind) string {
 	moq := kind.TLS == 2 && workerMoQFlag
 	y := ""
 	add := func(f string, a ...any) { y += fmt.Sprintf(f, a...) + "\n" }
-	add("logLevel: error")
+	if lv := os.Getenv("C35_LOGLEVEL"); lv != "" {
+		add("logLevel: %s", lv) // manual runs
+	} else {
+		add("logLevel: error")
+	}
 	add("logDestinations: [stdout]")
 	add("readTimeout: 5s")
 	add("writeTimeout: 5s")
